@@ -33,7 +33,7 @@ package tms20
 //@ macro mSizeH(tms, id) = round9(real(tmOf(tms, id).MatrixHeight) * real(tmOf(tms, id).TileHeight) * tmOf(tms, id).CellSize)
 //@ func (*TileMatrixSet).MatrixSize
 //@   prelude arith
-//@   panics[C14,C15,C06] !isNil(tmOf(tms, tmID).VariableMatrixWidths)
+//@   panics[C14,C15,C06] len(tmOf(tms, tmID).VariableMatrixWidths) != 0
 //@   ensures[C15] width == mSizeW(tms, tmID) && height == mSizeH(tms, tmID)
 
 // C15: the bounding box of a matrix, in x,y order: from the (axis-order corrected) point of origin over the
@@ -45,6 +45,6 @@ package tms20
 //@ func (*TileMatrixSet).MatrixBoundingBox
 //@   prelude arith tmsaxis
 //@   requires hasKey(tms.TileMatrices, tmID) ==> !isNil(tmOf(tms, tmID).PointOfOrigin)
-//@   panics[C14,C15,C06] hasKey(tms.TileMatrices, tmID) && !isNil(tmOf(tms, tmID).VariableMatrixWidths)
+//@   panics[C14,C15,C06] hasKey(tms.TileMatrices, tmID) && len(tmOf(tms, tmID).VariableMatrixWidths) != 0
 //@   ensures[C14,C15] (err != nil) == (!hasKey(tms.TileMatrices, tmID) || xyErr(tms))
 //@   ensures[C15,C03] err == nil ==> bottomLeft == bboxBL(tms, tmID) && topRight == bboxTR(tms, tmID)
